@@ -245,8 +245,10 @@ Definition phase_create (q : request) : res (list ev * cstate) :=
            | Out => Out
            | Err e => Ok ([EFailed e; snap s0], CSvc s0 false)
            | Ok cmd =>
+               (* clients that came with a token were added while the command was assembled *)
                let s1 := {| v_host := None; v_key := k; v_clients := init_clients d |} in
-               Ok ([ECmd cmd; snap s1], CSvc s1 true)
+               if existsb (fun c => memb (ch c) cmd) ao_cmd_forbidden then Ok ([EFailed ValueError; snap s1], CSvc s1 false)
+               else Ok ([ECmd cmd; snap s1], CSvc s1 true)
            end
   end.
 
